@@ -395,6 +395,55 @@ pub fn f_pingpong<F: Fl>(t: &mut Tape, cx: &mut Cx) -> CaseResult {
 }
 
 // ------------------------------------------------------------------------------------------------
+// bounds and values that are small-integer multiples of one unit 2^e, with the unit anywhere from the smallest
+// subnormal to huge: every intermediate of any reasonable formula is exact, so the result is the integer answer
+// times the unit, bit for bit. (The magnitude of the BOUND is otherwise confined to 2^-20 .. 2^20.)
+
+pub fn f_unit_grid<F: Fl>(t: &mut Tape, cx: &mut Cx) -> CaseResult {
+    let min_sub_exp = (F::TINY_SUB.log2()).round() as i32;
+    let min_pos_exp = (F::MIN_POS.log2()).round() as i32;
+    let max_exp = -min_pos_exp; // 2^126 resp. 2^1022 (values up to 4096 units stay finite below that: cap at max_exp - 14)
+    let (e, regime) = match t.below(8) {
+        0 => (min_sub_exp, "unit = smallest subnormal"),
+        1 => (min_sub_exp + 1 + t.below(8) as i32, "unit subnormal"),
+        2 => (min_pos_exp - 1 - t.below(4) as i32, "unit just below MIN_POSITIVE"),
+        3 => (min_pos_exp, "unit = MIN_POSITIVE"),
+        4 => (min_pos_exp + 1 + t.below(8) as i32, "unit just above MIN_POSITIVE"),
+        5 => (max_exp - 14 - t.below(8) as i32, "unit huge"),
+        6 => (t.int(-60, 60) as i32, "unit moderate"),
+        _ => (t.int(min_sub_exp as i64, (max_exp - 14) as i64) as i32, "unit anywhere"),
+    };
+    // 2^e exactly, also in the subnormal range (powi would go through 1 / 2^1074 = 1 / inf)
+    let unit = if e >= -1022 { f64::from_bits(((e + 1023) as u64) << 52) } else { f64::from_bits(1u64 << (e + 1074)) };
+    let m = 1 + t.below(64) as i64; // upper = m units
+    let n = t.int(-4096, 4096); // value = n units
+    let l = t.int(0, 64); // lower = l units >= 0 (documented precondition of the float wrapped_between: 0 <= lower < upper)
+    let (v, u, lo, hi) = (F::from64(n as f64 * unit), F::from64(m as f64 * unit), F::from64(l as f64 * unit), F::from64((l + m) as f64 * unit));
+    sample!(cx, "{} unit=2^{} ({}) value={} units upper={} units lower={} units", F::NAME, e, regime, n, m, l);
+    cx.label(regime);
+    if u.to64() < F::MIN_POS { cx.label("upper is subnormal"); }
+    cx.set_nontrivial(n < 0 || n >= m);
+    let w = n.rem_euclid(m);
+    let a = n.rem_euclid(2 * m);
+    let tri = a.min(2 * m - a);
+    let wb = l + (n - l).rem_euclid(m);
+    let judge = |cx: &mut Cx, what: &str, got: Result<F, String>, want_units: i64| -> CaseResult {
+        let want = F::from64(want_units as f64 * unit);
+        match got {
+            Ok(r) => check!(cx, r.to64() == want.to64(), "{} {}: value = {} x 2^{}, upper = {} x 2^{}, lower = {} x 2^{}: got {:?} = {} units, want {} units (all operands are small multiples of one power of two: exact)", F::NAME, what, n, e, m, e, l, e, r, r.to64() / unit, want_units),
+            Err(msg) => fail!("{} {}: value = {} x 2^{}, upper = {} x 2^{} (a valid, strictly positive bound): panicked: {}", F::NAME, what, n, e, m, e, msg),
+        }
+        Ok(())
+    };
+    judge(cx, "wrapped", catch(|| Wrap::wrapped(v, u)), w)?;
+    judge(cx, "Wrap::wrap", catch(|| <F as Wrap>::wrap(v, u)), w)?;
+    judge(cx, "pingpong", catch(|| Wrap::pingpong(v, u)), tri)?;
+    judge(cx, "wrapped_between", catch(|| Wrap::wrapped_between(v, lo, hi)), wb)?;
+    judge(cx, "Wrap::wrap_between", catch(|| <F as Wrap>::wrap_between(v, lo, hi)), wb)?;
+    Ok(())
+}
+
+// ------------------------------------------------------------------------------------------------
 // wrapped_between
 
 pub fn f_wrapped_between<F: Fl>(t: &mut Tape, cx: &mut Cx) -> CaseResult {
